@@ -19,11 +19,20 @@ Two halves live in this file:
   `run()` is never called: nothing is daemonised, bound, forked or logged; loading only stores values, with
   one exception that the harness accounts for: `Application.chdir()` does os.chdir(cfg.chdir).
 
+  A recipe may carry `steps` (a reload history): after the initial load, each step rewrites / removes
+  configuration files and then makes the call the master makes on SIGHUP - `Arbiter.reload()` is
+  `self.app.reload(); self.setup(self.app)`, i.e. the master adopts `app.cfg` if and only if `app.reload()`
+  returns; an exception (SystemExit included) leaves the main loop and ends the master.  The helper plays
+  exactly that part: it calls `app.reload()` (gunicorn.debug.spew stubbed: reload() would install the line
+  tracer when the merged `spew` is true) with the same sys.argv / os.environ / framework dict still in place, and reports per step whether the call returned and, if so, every setting of the adopted `app.cfg`.
+  The history ends at the first reload that does not return.
+
 The process cwd while gunicorn.config is imported is the home directory, and stays the cwd of every cell:
 `Chdir.default` is computed at import (util.getcwd()), so this is what a real `gunicorn` launch from that
 directory looks like (default-config-file discovery happens after the first Application.chdir()).
 """
 import contextlib
+import functools
 import io
 import json
 import os
@@ -60,6 +69,10 @@ def ser(v):
         return "{" + ", ".join("%s: %s" % (k, x) for k, x in sorted((ser(k), ser(x)) for k, x in v.items())) + "}"
     if isinstance(v, type):
         return "<class %s>" % v.__qualname__
+    if isinstance(v, functools.partial):
+        return "<partial %s args=%s>" % (ser(v.func), ser(list(v.args)))
+    if callable(v) and not hasattr(v, "__qualname__"):      # an instance of a class defining __call__
+        return "<callable-obj %s>" % type(v).__qualname__
     if callable(v):
         return "<fn %s>" % getattr(v, "__qualname__", type(v).__name__)
     return "<obj %s>" % type(v).__name__
@@ -90,7 +103,28 @@ def make_home(home):
         fh.write("def loadapp(*a, **k):\n    raise RuntimeError('stub paste.deploy: never loaded by C16')\n")
     with open(os.path.join(home, "app.py"), "w") as fh:
         fh.write("def app(environ, start_response):\n    start_response('200 OK', [])\n    return [b'']\n")
+    with open(os.path.join(home, SHARED + ".py"), "w") as fh:
+        fh.write(shared_module_text())
     return p
+
+
+SHARED = "c16_shared"           # a module next to the config files, from which they import hooks and classes
+MAX_ARITY = 6
+
+
+def shared_module_text():
+    """What deployments share between config files: hooks as plain functions (one per arity), as instances of
+    a class with __call__, and worker / logger classes.  `c16_shared_hook_<n>` takes n positional arguments."""
+    out = ['"""hooks and classes shared by several gunicorn configuration files (C16 fixture)"""\n']
+    for n in range(MAX_ARITY + 1):
+        args = ", ".join("a%d" % i for i in range(n))
+        out.append("def c16_shared_hook_%d(%s):\n    pass\n\n" % (n, args))
+        out.append("class C16SharedCallable%d:\n    def __call__(%s):\n        pass\n\n" % (
+            n, ", ".join(["self"] + ["a%d" % i for i in range(n)])))
+        out.append("c16_shared_obj_%d = C16SharedCallable%d()\n\n" % (n, n))
+    out.append("class C16SharedWorker:\n    pass\n\n")
+    out.append("class C16SharedLogger:\n    pass\n")
+    return "".join(out)
 
 
 # ---- client half ----------------------------------------------------------------------------------
@@ -146,23 +180,36 @@ def _load_one(home, base_path, base_modules, recipe, LabApp):
     os.environ["PWD"] = home
     sys.path[:] = list(base_path)
     for m in list(sys.modules):
-        if m not in base_modules and (m == "__config__" or m.startswith("c16_cfgmod")):
+        if m not in base_modules and (m == "__config__" or m.startswith("c16_cfgmod") or m == SHARED):
             del sys.modules[m]
     setattr(sys, MARK, [])
     os.environ.pop("GUNICORN_CMD_ARGS", None)
     if recipe.get("env") is not None:
         os.environ["GUNICORN_CMD_ARGS"] = recipe["env"]
     written = []
-    for path, content in recipe.get("files", {}).items():
-        with open(path, "w") as fh:
-            fh.write(content)
-        written.append(path)
+
+    def put(files):
+        for path, content in files.items():
+            if content is None:
+                with contextlib.suppress(OSError):
+                    os.unlink(path)
+                continue
+            with open(path, "w") as fh:
+                fh.write(content)
+            if path not in written:
+                written.append(path)
+        importlib.invalidate_caches()
+
     import importlib
-    importlib.invalidate_caches()
+    put(recipe.get("files", {}))
     framework = None
     if recipe.get("framework"):
         ns = {"__name__": "__framework__"}
-        exec(compile(recipe["framework"], "<framework-defaults>", "exec"), ns)
+        sys.path.insert(0, home)                 # a framework imports from wherever it lives
+        try:
+            exec(compile(recipe["framework"], "<framework-defaults>", "exec"), ns)
+        finally:
+            sys.path[:] = list(base_path)
         framework = ns["FRAMEWORK"]
     old_argv = sys.argv
     sys.argv = ["gunicorn"] + list(recipe["argv"])
@@ -174,6 +221,25 @@ def _load_one(home, base_path, base_modules, recipe, LabApp):
                 obs = {"ok": True,
                        "values": {k: ser(s.get()) for k, s in app.cfg.settings.items()},
                        "loaded": list(getattr(sys, MARK, [])), "cwd": os.getcwd()}
+                if recipe.get("steps"):
+                    obs["steps"] = []
+                for step in recipe.get("steps", []):
+                    # the master's part of a SIGHUP: app.reload(); on return, adopt app.cfg (Arbiter.setup)
+                    setattr(sys, MARK, [])
+                    put(step.get("files", {}))
+                    try:
+                        app.reload()
+                        so = {"returned": True,
+                              "values": {k: ser(s.get()) for k, s in app.cfg.settings.items()}}
+                    except SystemExit as e:
+                        so = {"returned": False, "exc": "SystemExit",
+                              "code": e.code if isinstance(e.code, int) or e.code is None else 1}
+                    except BaseException as e:      # noqa: B036 - whatever escapes ends the master
+                        so = {"returned": False, "exc": type(e).__name__, "code": 1, "msg": str(e)[:200]}
+                    so["loaded"] = list(getattr(sys, MARK, []))
+                    obs["steps"].append(so)
+                    if not so["returned"]:
+                        break
             except SystemExit as e:
                 obs = {"ok": False, "exc": "SystemExit", "code": e.code if isinstance(e.code, int) or e.code is None
                        else 1, "loaded": list(getattr(sys, MARK, []))}
@@ -189,6 +255,8 @@ def _load_one(home, base_path, base_modules, recipe, LabApp):
             except OSError:
                 pass
     obs["stderr"] = err.getvalue()[-300:]
+    if obs.get("steps"):
+        obs["stderr_all"] = err.getvalue()[-600:]
     return obs
 
 
@@ -205,6 +273,10 @@ def _helper_main(mode, home):
         res = _describe()
     else:
         from gunicorn.app.wsgiapp import WSGIApplication
+        from gunicorn import debug
+        # BaseApplication.reload() ends with `if self.cfg.spew: debug.spew()`, which installs a sys.settrace
+        # hook printing every executed line: an effect of the setting, not part of the merge - switched off
+        debug.spew = lambda *a, **k: None
 
         class LabApp(WSGIApplication):
             """The real WSGI application; init() additionally returns the framework-defaults dict."""
